@@ -33,7 +33,12 @@ func ParseMessageExpression(rawExpression string) Message {
 
 	// find variables
 	re := regexp.MustCompile(`\{\{\s*([\w-]+\.[\w-]+)\s*}}`)
-	for _, v := range re.FindAllStringSubmatch(rawExpression, -1) {
+	placeholders := re.FindAllStringSubmatch(rawExpression, -1)
+	if len(placeholders) > 0 {
+		// the expression becomes a format string: percent signs of the message itself are literal
+		expression = strings.ReplaceAll(expression, "%", "%%")
+	}
+	for _, v := range placeholders {
 		expression = strings.ReplaceAll(expression, v[0], "%v") // replace variable by template string variable
 		variables = append(variables, v[1])
 	}
